@@ -12,24 +12,22 @@ import os
 import re
 import vlib
 
-P = "UrcuVerif.Lfht.Resize."
-M = "UrcuVerif.Lfht.Mm."
-THEOREMS = [
-    P + "resize_terminates", P + "resize_reaches_pow2_target", P + "resize_diverges_unfixed",
-    P + "resize_diverges_unfixed_witness", P + "resize_target_pow2_in_bounds",
-    P + "size_in_bounds", P + "stored_targets_in_bounds", P + "count_args_pow2",
-    P + "lazy_grow_target_in_bounds", P + "lazy_count_target_in_bounds",
-    P + "lazy_shrink_never_overrides_grow", P + "lazy_shrink_terminates",
-    P + "partition_covers", P + "alloc_before_publish", P + "event_order_invariant",
-    P + "resizer_terminates_after_last_change", P + "resizer_terminates_under_destroy",
-    P + "destroy_after_queued_resizes", P + "no_resize_queued_after_destroy",
-    P + "destroy_runs_with_resizer_idle",
-    M + "bucket_at_order_in_bounds", M + "bucket_at_order_injective",
-    M + "bucket_at_chunk_in_bounds", M + "bucket_at_chunk_injective",
-    M + "bucket_at_mmap_in_bounds", M + "bucket_at_mmap_injective",
-    M + "new_table_params_wf",
-]
-UNPROVED = []
+C = "UrcuVerif.C09."
+THEOREMS = [C + t for t in [
+    "resize_terminates", "resize_reaches_pow2_target", "resize_diverges_unfixed", "resize_diverges_unfixed_witness",
+    "resize_target_pow2_in_bounds", "size_in_bounds", "stored_targets_in_bounds", "count_args_pow2",
+    "lazy_grow_target_in_bounds", "lazy_count_target_in_bounds", "lazy_shrink_never_overrides_grow",
+    "lazy_shrink_terminates", "partition_covers", "alloc_before_publish", "event_order_invariant",
+    "resizer_terminates_after_last_change", "resizer_terminates_under_destroy", "destroy_after_queued_resizes",
+    "no_resize_queued_after_destroy", "destroy_runs_with_resizer_idle",
+    "bucket_at_order_in_bounds", "bucket_at_order_injective", "bucket_at_chunk_in_bounds", "bucket_at_chunk_injective",
+    "bucket_at_mmap_in_bounds", "bucket_at_mmap_injective", "new_table_params_wf"]] + [
+    "UrcuVerif.Lfht.Resize.inv_reach", "UrcuVerif.Lfht.Resize.invA_step", "UrcuVerif.Lfht.Resize.invD_step",
+    "UrcuVerif.Lfht.Resize.invL_step", "UrcuVerif.Lfht.Resize.mu_decreases",
+    "UrcuVerif.Lfht.Resize.min_table_size_eq", "UrcuVerif.Lfht.Resize.chain_len_target_eq",
+    "UrcuVerif.Lfht.Resize.min_partition_eq", "UrcuVerif.Lfht.Mm.max_chunk_table_eq"]
+UNPROVED = ["resize_preserves_contents (nodes found before are found after and during a resize): not a statement about this "
+            "component's model; sequential part = C08, concurrent lookups = C05; here checked by the harness oracles only"]
 AUDIT = ["UrcuVerif.Lfht.Resize", "UrcuVerif.Lfht.Mm", "UrcuVerif.Lfht.ResizeLemmas", "UrcuVerif.Lfht.ResizeLemmasTs",
          "UrcuVerif.Lfht.ResizeLemmasMm", "UrcuVerif.Props.C09", "UrcuVerif.Machine"]
 TRUSTED = [
@@ -94,7 +92,7 @@ def run(chk):
     have_driver = os.path.exists(DRV)
     if not proved and not have_driver:
         return
-    nseeds = 6 if chk.tier == "quick" else 40
+    nseeds = 16 if chk.tier == "quick" else 60
     tier = "quick" if chk.tier == "quick" else "thorough"
     hist = {}
     nontriv = set()
